@@ -148,6 +148,9 @@ let () = iter_lines (fun line ->
         | "save" ->
           let f = bytes_of_tok a.(1) in
           if not saveok.(int_of_string a.(0)) then Printf.sprintf "save r=-77 |%s | f=x" (dump ()) else
+          (* the guard of theorem C17_save_load_roundtrip, evaluated on the state that is saved *)
+          let guard = roundtrip_ok_b strtod_o fmt16_o !world (get_opts !world (nat_of_int (int_of_string a.(0)))) in
+          print_endline (if guard then "G 1" else "G 0");
           let s = run_op op (OSave (nat_of_int (int_of_string a.(0)), f)) in
           let ok = String.length s > 9 && String.sub s 0 9 = "save r=0 " in
           let content = (match !world.w_fs with (k, b) :: _ when ok && k = f -> tok_of_bytes b | _ -> "x") in
